@@ -157,6 +157,7 @@ def val_eq(a, b):
 
 class PrecedenceHarness(Harness):
   name = "c03_precedence"
+  quick_only_for = ("C18",)   # the deep tier runs under the harness's own property; the C18 roll-up reuses the quick partitions
   properties = ("C03", "C13", "C18")
   functions = ("isd:ISD._process_element", "isd:StyleProcessor.inherit", "isd:ISD._compute_styles")
   assumptions = ("values used are already in computed form (enums, colours, rh/rw lengths) so that precedence is isolated from length resolution",)
@@ -278,6 +279,7 @@ def ref_len(value, unit, pct_ref, em_ref, c_ref, px_ref):
 
 class LengthHarness(Harness):
   name = "c03_lengths"
+  quick_only_for = ("C18",)   # the deep tier runs under the harness's own property; the C18 roll-up reuses the quick partitions
   properties = ("C03", "C13", "C18")
   functions = ("isd:_compute_length", "isd:StyleProcessors.FontSize.compute", "isd:StyleProcessors.FontSize.inherit",
                "isd:StyleProcessors.LineHeight.compute", "isd:StyleProcessors.LinePadding.compute", "isd:StyleProcessors.TextOutline.compute",
@@ -420,6 +422,7 @@ GUNITS = [U.pct, U.c, U.px, U.rh]
 
 class GeometryHarness(Harness):
   name = "c03_geometry"
+  quick_only_for = ("C18",)   # the deep tier runs under the harness's own property; the C18 roll-up reuses the quick partitions
   properties = ("C03", "C13", "C18")
   functions = ("isd:StyleProcessors.Extent.compute", "isd:StyleProcessors.Origin.compute", "isd:StyleProcessors.Position.compute",
                "isd:StyleProcessors.Padding.compute")
@@ -533,6 +536,7 @@ register(GeometryHarness())
 
 class MergeHarness(Harness):
   name = "c03_merges"
+  quick_only_for = ("C18",)   # the deep tier runs under the harness's own property; the C18 roll-up reuses the quick partitions
   properties = ("C03", "C18")
   functions = ("isd:StyleProcessors.TextDecoration.inherit", "isd:StyleProcessors.TextEmphasis.compute", "isd:ISD._process_element")
   assumptions = ()
